@@ -642,6 +642,10 @@ void MDSDRV_Track_Writer::event_hook()
 				param = 0;
 			if(in_drum_mode)
 			{
+				// The note ends the routine. Inside a '[]' loop that would leave the loop open
+				// in the sequence data (and the player would take the note for a nested call).
+				if(get_stack_type() == Player_Stack::LOOP)
+					error("MDSDRV: the note that ends a drum mode routine is inside a '[]' loop");
 				if(param < 0 || param > 255)
 					error(stringf("MDSDRV: note out of range (%d > %d)", param, 255).c_str());
 				converted_events.push_back(MDSDRV_Event(MDSDRV_Event::DMFINISH, param));
